@@ -68,9 +68,10 @@ Definition change_name (tns : nat) (l : names) (from to : option str) : res name
   if Nat.eqb tns 0 then Err
   else if opt_eqb str_eqb (nth tns l None) from then Ok (set_nth tns l to) else Err.
 
-(* Names::from_first_name(key) followed by `[target_namespace] = Some(b)` *)
-Definition fresh_names (n tns : nat) (key : option str) (b : str) : names :=
-  set_nth tns (match n with O => [] | S n' => key :: repeat None n' end) (Some b).
+(* Names::from_first_name(key) / Names::none() followed by change_name(target_namespace, None, Some(b))
+   (the same check as for existing entries: the first namespace is refused) *)
+Definition fresh_names (n tns : nat) (key : option str) (b : str) : res names :=
+  change_name tns (match n with O => [] | S n' => key :: repeat None n' end) None (Some b).
 
 (* ---- IndexMap::swap_remove on the pending-diff map ---- *)
 Fixpoint swap_remove {K D} (keqb : K -> K -> bool) (key : D -> K) (k : K) (l : list D) : option (D * list D) :=
@@ -121,14 +122,15 @@ Fixpoint apply_targets {K D T} (keqb : K -> K -> bool) (dkey : D -> K) (tkey : T
   end.
 
 (* case 3: keys only in diffs *)
-Fixpoint apply_pending {K D T} (dkey : D -> K) (info : D -> action str) (mk : K -> str -> T)
+Fixpoint apply_pending {K D T} (dkey : D -> K) (info : D -> action str) (mk : K -> str -> res T)
     (child : D -> T -> res T) (pending : list D) : res (list T) :=
   match pending with
   | [] => Ok []
   | d :: ds =>
       match info d with
       | AAdd b =>
-          do t <- child d (mk (dkey d) b);
+          do t0 <- mk (dkey d) b;
+          do t <- child d t0;
           do r <- apply_pending dkey info mk child ds;
           Ok (t :: r)
       | _ => Err
@@ -136,7 +138,7 @@ Fixpoint apply_pending {K D T} (dkey : D -> K) (info : D -> action str) (mk : K 
   end.
 
 Definition apply_map {K D T} (keqb : K -> K -> bool) (dkey : D -> K) (tkey : T -> K)
-    (info : D -> action str) (chg : T -> option str -> option str -> res T) (mk : K -> str -> T)
+    (info : D -> action str) (chg : T -> option str -> option str -> res T) (mk : K -> str -> res T)
     (child : D -> T -> res T) (diffs : list D) (targets : list T) : res (list T) :=
   do rp <- apply_targets keqb dkey tkey info chg child diffs targets;
   do r2 <- apply_pending dkey info mk child (snd rp);
@@ -147,8 +149,8 @@ Definition doc_apply := apply_option str_eqb.
 
 Definition chg_param (tns : nat) (p : param) (from to : option str) : res param :=
   do n <- change_name tns (p_names p) from to; Ok (mkParam (p_index p) n (p_doc p)).
-Definition new_param (n tns : nat) (k : N) (b : str) : param :=
-  mkParam k (fresh_names n tns None b) None.            (* ParameterMapping::from_key: Names::none() *)
+Definition new_param (n tns : nat) (k : N) (b : str) : res param :=
+  do l <- fresh_names n tns None b; Ok (mkParam k l None).   (* ParameterMapping::from_key: Names::none() *)
 Definition apply_param (d : pdiff) (p : param) : res param :=
   do doc <- doc_apply (pd_doc d) (p_doc p); Ok (mkParam (p_index p) (p_names p) doc).
 Definition apply_params (n tns : nat) : list pdiff -> list param -> res (list param) :=
@@ -156,8 +158,8 @@ Definition apply_params (n tns : nat) : list pdiff -> list param -> res (list pa
 
 Definition chg_field (tns : nat) (f : field) (from to : option str) : res field :=
   do n <- change_name tns (f_names f) from to; Ok (mkField (f_desc f) n (f_doc f)).
-Definition new_field (n tns : nat) (k : str * str) (b : str) : field :=
-  mkField (snd k) (fresh_names n tns (Some (fst k)) b) None.
+Definition new_field (n tns : nat) (k : str * str) (b : str) : res field :=
+  do l <- fresh_names n tns (Some (fst k)) b; Ok (mkField (snd k) l None).
 Definition apply_field (d : fdiff) (f : field) : res field :=
   do doc <- doc_apply (fd_doc d) (f_doc f); Ok (mkField (f_desc f) (f_names f) doc).
 Definition apply_fields (n tns : nat) : list fdiff -> list field -> res (list field) :=
@@ -165,8 +167,8 @@ Definition apply_fields (n tns : nat) : list fdiff -> list field -> res (list fi
 
 Definition chg_meth (tns : nat) (m : meth) (from to : option str) : res meth :=
   do n <- change_name tns (m_names m) from to; Ok (mkMeth (m_desc m) n (m_doc m) (m_params m)).
-Definition new_meth (n tns : nat) (k : str * str) (b : str) : meth :=
-  mkMeth (snd k) (fresh_names n tns (Some (fst k)) b) None [].
+Definition new_meth (n tns : nat) (k : str * str) (b : str) : res meth :=
+  do l <- fresh_names n tns (Some (fst k)) b; Ok (mkMeth (snd k) l None []).
 Definition apply_meth (n tns : nat) (d : mdiff) (m : meth) : res meth :=
   do doc <- doc_apply (md_doc d) (m_doc m);
   do ps <- apply_params n tns (md_params d) (m_params m);
@@ -176,8 +178,8 @@ Definition apply_meths (n tns : nat) : list mdiff -> list meth -> res (list meth
 
 Definition chg_class (tns : nat) (c : class) (from to : option str) : res class :=
   do n <- change_name tns (c_names c) from to; Ok (mkClass n (c_doc c) (c_fields c) (c_methods c)).
-Definition new_class (n tns : nat) (k : str) (b : str) : class :=
-  mkClass (fresh_names n tns (Some k) b) None [] [].
+Definition new_class (n tns : nat) (k : str) (b : str) : res class :=
+  do l <- fresh_names n tns (Some k) b; Ok (mkClass l None [] []).
 Definition apply_class (n tns : nat) (d : cdiff) (c : class) : res class :=
   do doc <- doc_apply (cd_doc d) (c_doc c);
   do fs <- apply_fields n tns (cd_fields d) (c_fields c);
